@@ -157,6 +157,7 @@ func (ts *BackgroundTaskManager) InvokeBackgroundTask(do func(context.Context), 
 			case <-ch: // some prioritized tasks started; retry it later
 				verifhook.Event("task.Notified", ts)
 				cancel()
+				<-done // wait for the cancelled task: it must not overlap its retry nor outlive this call
 				return false
 			case <-done: // All tasks completed
 				verifhook.Event("task.BodyDone", ts)
